@@ -477,33 +477,73 @@ def fn(kind, p: LP) -> LP:
     return LP.gen(g)
 
 
+def expo_split(expo: LP):
+    """expo == c0 + s * prim: c0 the constant term, prim the non-constant part normalised to leading
+    coefficient one (leading = smallest monomial in the ring order), s that coefficient (non-zero)"""
+    c0 = expo.t.get((), ZERO)
+    nc = {m: c for m, c in expo.t.items() if m}
+    s = nc[min(nc)]
+    return c0, s, LP({m: c / s for m, c in nc.items()})
+
+
+def pow_atoms_of(base: LP, prim: LP):
+    """[(scale s2, generator)] of the power atoms pw(b2, s2 * prim) with b2 ring-equal to base"""
+    out, seen = [], set()
+    pk, bk = prim.key(), base.key()
+    for k2, g in list(_fns.items()):
+        if k2[0] != "pow" or g in seen:
+            continue
+        seen.add(g)
+        b2, e2 = DEFS[g][2], DEFS[g][3]
+        _, s2, p2 = expo_split(e2)
+        if p2.key() == pk and (b2.key() == bk or (SEMANTIC_ATOMS and iszero(base - b2))):
+            out.append((s2, g))
+    return out
+
+
 def powatom(base: LP, expo: LP) -> LP:
     """base ** expo for a symbolic real exponent (base > 0 is logged as a side condition): an atom
-    pw with d pw = pw * (expo * d base / base + log(base) * d expo).  Atoms with the same base whose
-    exponents differ by an integer share one generator (pw(p, a + k) = pw(p, a) * p**k)."""
+    pw with d pw = pw * (expo * d base / base + log(base) * d expo).
+
+    Normal form (every rewrite is an identity of positive reals, base > 0):
+    * the exponent is split as c0 + s * prim (constant part, rational scale, primitive non-constant part):
+      pw(p, c0 + s prim) = p**c0 * pw(p, s prim); atoms are created for positive scales only
+      (pw(p, -e) = 1 / pw(p, e)); a request whose scale is an integer multiple k of the scale of an existing
+      atom of the same base and primitive part is that atom to the k  (pw(p, k e) = pw(p, e)**k) -- so
+      pw(p, a) * pw(p, c - a) == p**c and pw(p, a + k) == pw(p, a) * p**k;
+    * a base that is a pure power of one root atom or of one power atom is flattened:
+      pw(root(p, n)**m, e) = pw(p, m e / n),  pw(pw(p, a)**m, e) = pw(p, m a e)."""
     cb = base.asconst()
     if cb is not None and cb == 1:
         return LP.const(1)
     ce = expo.asconst()
     if ce is not None:
         return base**ce
-    k = ("pow", base.key(), expo.key())
+    if len(base.t) == 1:
+        ((m, c),) = base.t.items()
+        if c == 1 and len(m) == 1 and m[0][0] in DEFS:
+            g0, k0 = m[0]
+            d = DEFS[g0]
+            if d[0] == "root":
+                return powatom(d[1], expo * Fraction(k0, d[2]))
+            if d[0] == "fn" and d[1] == "pow":
+                return powatom(d[2], d[3] * expo * k0)
+    c0, s, prim = expo_split(expo)
+    front = base**c0 if c0 else LP.const(1)
+    k = ("pow", base.key(), (prim * abs(s)).key())
     if k in _fns:
-        return LP.gen(_fns[k])
-    for k2, g in list(_fns.items()):
-        if k2[0] != "pow":
-            continue
-        b2, e2 = DEFS[g][2], DEFS[g][3]
-        if iszero(base - b2):
-            dk = (expo - e2).asconst() if not (expo - e2).t or (expo - e2).asconst() is not None else None
-            if not (expo - e2).t:
-                dk = ZERO
-            if dk is not None and dk.denominator == 1:
-                return LP.gen(g) * base ** int(dk)
-    g = newgen(f"pow{len(_fns)}", ("fn", "pow", base, expo))
+        return front * LP.gen(_fns[k], 1 if s > 0 else -1)
+    best = None
+    for s2, g in pow_atoms_of(base, prim):
+        r = s / s2
+        if r.denominator == 1 and (best is None or s2 < best[0]):
+            best = (s2, g, int(r))
+    if best is not None:
+        return front * LP.gen(best[1], best[2])
+    g = newgen(f"pow{len(_fns)}", ("fn", "pow", base, prim * abs(s)))
     _fns[k] = g
     SIDE.append((base, ">", "power with real exponent"))
-    return LP.gen(g)
+    return front * LP.gen(g, 1 if s > 0 else -1)
 
 
 def constatom(name):
